@@ -45,6 +45,8 @@ def dn(x):
 #      ("wrap", sp) ("dubins", rho, sym, lo2, hi2) ("reedsshepp", rho, lo2, hi2)
 def sp_tokens(sp):
     k = sp[0]
+    if k == "hist":
+        return sp_tokens(sp[3])
     if k == "rv":
         return ["rv", str(len(sp[1]))] + [B(x) for x in sp[1]] + [B(x) for x in sp[2]]
     if k in ("so2", "so3", "klein"):
@@ -168,6 +170,8 @@ def parse_space(t, i=0):
 def prims(sp):
     """primitive leaves in state order: ("rv", lo, hi) ("so2",) ("so3",) ("time", b) ("disc", lo, hi)"""
     k = sp[0]
+    if k == "hist":
+        return prims(sp[3])
     if k in ("rv", "so2", "so3", "time", "disc"):
         return [sp]
     if k == "cmp":
@@ -224,6 +228,8 @@ def units(sp, w=1.0):
     """the smallest sub-spaces with a distance function of their own, with effective weight, in state
     order: [(unit space, effective weight, number of leaf values)]"""
     k = sp[0]
+    if k == "hist":
+        return units(sp[3], w)
     if k == "cmp":
         return [u for wi, s in sp[1] for u in units(s, w * wi)]
     if k == "se2":
@@ -238,6 +244,8 @@ def units(sp, w=1.0):
 
 
 def contains(sp, pred):
+    if sp[0] == "hist":
+        return contains(sp[3], pred)
     if pred(sp):
         return True
     k = sp[0]
@@ -612,6 +620,187 @@ def car_spaces(r):
     return out
 
 
+
+# ------------------------------------------------------------------------------- histories
+# ("hist", base space, ops, effective space): the base space is constructed, then changed by `ops`
+# (setup / setbounds / setweight / setweightn, harness/spacedist.cpp); the effective space is the AST with the
+# CURRENT bounds and weights (SE(2)/SE(3) written out as compounds), used for state generation, units and records.
+def expand(sp):
+    k = sp[0]
+    if k == "se2":
+        return ("cmp", [(1.0, ("rv", list(sp[1]), list(sp[2]))), (0.5, ("so2",))])
+    if k == "se3":
+        return ("cmp", [(1.0, ("rv", list(sp[1]), list(sp[2]))), (1.0, ("so3",))])
+    if k == "cmp":
+        return ("cmp", [(w, expand(c)) for w, c in sp[1]])
+    if k == "wrap" or k == "cforest" or k in CONSTRAINED:
+        return (k, expand(sp[1]))
+    if k == "spacetime":
+        return ("spacetime", sp[1], sp[2], sp[3], expand(sp[4]))
+    return sp
+
+
+def children(sp):
+    k = sp[0]
+    if k == "cmp":
+        return [c for _w, c in sp[1]]
+    if k == "wrap" or k == "cforest" or k in CONSTRAINED:
+        return [sp[1]]
+    if k == "spacetime":
+        return [sp[4], ("time", sp[3])]
+    return []
+
+
+def with_child(sp, i, new):
+    k = sp[0]
+    if k == "cmp":
+        cs = list(sp[1])
+        cs[i] = (cs[i][0], new)
+        return ("cmp", cs)
+    if k == "wrap" or k == "cforest" or k in CONSTRAINED:
+        return (k, new)
+    if k == "spacetime":
+        if i == 0:
+            return ("spacetime", sp[1], sp[2], sp[3], new)
+        return ("spacetime", sp[1], sp[2], new[1], sp[4])
+    raise ValueError("no child")
+
+
+def mod_at(sp, path, f):
+    if not path:
+        return f(sp)
+    return with_child(sp, path[0], mod_at(children(sp)[path[0]], path[1:], f))
+
+
+def nodes(sp, path=()):
+    """(path, node) of the expanded AST in protocol navigation order"""
+    yield path, sp
+    for i, c in enumerate(children(sp)):
+        yield from nodes(c, path + (i,))
+
+
+def apply_op(eff, op):
+    if op[0] == "setup":
+        return eff
+    if op[0] == "setbounds":
+        _k, path, lo, hi = op
+
+        def f(n):
+            if n[0] == "rv":
+                return ("rv", list(lo), list(hi))
+            if n[0] == "time":
+                return ("time", (lo[0], hi[0]))
+            raise ValueError("setbounds on " + n[0])
+        return mod_at(eff, list(path), f)
+    _k, path, idx, w = op
+
+    def g(n):
+        cs = list(n[1])
+        cs[idx] = (w, cs[idx][1])
+        return ("cmp", cs)
+    return mod_at(eff, list(path), g)
+
+
+def op_line(op):
+    if op[0] == "setup":
+        return "setup"
+    if op[0] == "setbounds":
+        _k, path, lo, hi = op
+        return " ".join(["setbounds", str(len(path))] + [str(i) for i in path] + [str(len(lo))] + [B(x) for x in lo] + [B(x) for x in hi])
+    k, path, idx, w = op
+    return " ".join([k, str(len(path))] + [str(i) for i in path] + [str(idx), B(w)])
+
+
+def make_hist(base, ops):
+    eff = expand(base)
+    for op in ops:
+        eff = apply_op(eff, op)
+    return ("hist", base, list(ops), eff)
+
+
+def pre_lines(sp):
+    """number of protocol lines before `claims` (each answered `ok`)"""
+    return 1 + len(sp[2]) if sp[0] == "hist" else 1
+
+
+def rand_history(r, base):
+    """random changes after construction: setup() somewhere, bounds enlarged / shrunk / moved, weights raised /
+    lowered / zeroed by index and by name, on any node of the tree"""
+    eff = expand(base)
+    ops = []
+    if r.chance(3, 4):
+        ops.append(("setup",))
+    cand = list(nodes(eff))
+    for _ in range(r.range(1, 3)):
+        path, n = r.choice(cand)
+        if n[0] == "rv" and n[1]:
+            f = r.choice([10.0, 3.0, 0.5, 0.1, 100.0])
+            lo, hi = [], []
+            for l, h in zip(n[1], n[2]):
+                c, hw = 0.5 * (l + h), 0.5 * (h - l) * f
+                hw = hw if hw > 0 else 1.0
+                sh = r.choice([0.0, 0.0, hw])
+                lo.append(c - hw + sh)
+                hi.append(c + hw + sh)
+            ops.append(("setbounds", path, lo, hi))
+        elif n[0] == "time":
+            lo = r.choice([0.0, -5.0])
+            ops.append(("setbounds", path, [lo], [lo + r.choice([2.0, 50.0, 0.25])]))
+        elif n[0] == "cmp" and n[1]:
+            idx = r.below(len(n[1]))
+            ops.append((r.choice(["setweight", "setweightn"]), path, idx, r.choice([2.0, 0.25, 0.1, 3.0, 1e3, 0.0, 1.0])))
+        else:
+            continue
+        eff = apply_op(eff, ops[-1])
+        cand = list(nodes(eff))
+    if r.chance(1, 3):
+        ops.append(("setup",))
+    return make_hist(base, ops)
+
+
+def history_spaces(r, n_random):
+    rv2 = ("rv", [0.0, 0.0], [1.0, 1.0])
+    box3 = ("rv", [-1.0, -1.0, -1.0], [1.0, 1.0, 1.0])
+    se2 = ("se2", [-2.0, -2.0], [2.0, 2.0])
+    big2 = ("setbounds", (0,), [0.0, 0.0], [10.0, 10.0])
+    out = [
+        # a wrapper must report the extent of the wrapped space as it is NOW
+        make_hist(("wrap", rv2), [("setup",), big2]),
+        make_hist(("wrap", rv2), [big2, ("setup",), ("setbounds", (0,), [-50.0, -50.0], [50.0, 50.0])]),
+        make_hist(("wrap", se2), [("setup",), ("setbounds", (0, 0), [-50.0, -50.0], [50.0, 50.0])]),
+        make_hist(("wrap", se2), [("setup",), ("setweight", (0,), 1, 3.0)]),
+        make_hist(("wrap", ("wrap", ("time", (0.0, 1.0)))), [("setup",), ("setbounds", (0, 0), [0.0], [30.0])]),
+        make_hist(("projected", box3), [("setup",), ("setbounds", (0,), [-10.0] * 3, [10.0] * 3), ("setup",)]),
+        make_hist(("atlas", box3), [("setup",), ("setbounds", (0,), [-10.0] * 3, [10.0] * 3), ("setup",)]),
+        make_hist(("tangentbundle", box3), [("setup",), ("setbounds", (0,), [-10.0] * 3, [10.0] * 3)]),
+        make_hist(("cforest", ("wrap", rv2)), [("setup",), ("setbounds", (0, 0), [0.0, 0.0], [7.0, 7.0])]),
+        make_hist(("cmp", [(1.0, ("wrap", rv2)), (2.0, ("so2",))]), [("setup",), ("setbounds", (0, 0), [0.0, 0.0], [9.0, 9.0])]),
+        # the distance of a compound is the weighted sum with the CURRENT weights
+        make_hist(se2, [("setweight", (), 1, 2.0)]),
+        make_hist(se2, [("setup",), ("setweight", (), 0, 0.25), ("setweight", (), 1, 0.1)]),
+        make_hist(se2, [("setweightn", (), 1, 1.0), ("setup",)]),
+        make_hist(se2, [("setweightn", (), 0, 3.0)]),
+        make_hist(("se3", [-1.0] * 3, [1.0] * 3), [("setup",), ("setweight", (), 1, 0.2), ("setweightn", (), 0, 0.5)]),
+        make_hist(("cmp", [(3.0, se2), (1.0, ("rv", [0.0], [1.0]))]), [("setweight", (0,), 0, 0.25), ("setweight", (0,), 1, 0.1)]),
+        make_hist(("cmp", [(3.0, se2), (1.0, ("rv", [0.0], [1.0]))]), [("setup",), ("setweightn", (), 0, 0.5), ("setweight", (0,), 1, 4.0)]),
+        make_hist(("wrap", ("cmp", [(1.0, ("so2",)), (1.0, ("cmp", [(2.0, se2), (0.5, ("disc", 0, 3))]))])),
+                  [("setup",), ("setweight", (0, 1), 0, 0.1), ("setweight", (0, 1, 0), 1, 5.0)]),
+        make_hist(("cforest", se2), [("setweight", (0,), 1, 2.0)]),
+        make_hist(("spacetime", 1.0, 0.5, (0.0, 5.0), se2), [("setup",), ("setweight", (0,), 1, 2.0), ("setbounds", (1,), [0.0], [20.0])]),
+        make_hist(("torus", 1.0, 0.5), [("setup",)]),
+    ]
+    for i in range(n_random):
+        rr = r.fork("hist%d" % i)
+        base = rand_compound(rr, rr.choice([1, 2, 2, 3])) if rr.chance(2, 3) else rr.choice(
+            [se2, ("se3", [0.0] * 3, [2.0] * 3), ("wrap", se2), ("wrap", rv2), ("cforest", se2), ("projected", box3)])
+        if rr.chance(1, 4) and base[0] == "cmp":
+            base = ("wrap", base)
+        if nvals(base) > 40:
+            continue
+        out.append(rand_history(rr, base))
+    return out
+
+
 # ------------------------------------------------------------------------------- scripts
 PAIRS = [(0, 0), (1, 1), (2, 2), (0, 1), (1, 0), (1, 2), (2, 1), (0, 2), (2, 0)]
 EQS = [(0, 0), (0, 1), (1, 0), (1, 2), (0, 2)]
@@ -627,7 +816,10 @@ def triple_lines(sp, tr):
 
 
 def space_lines(sp, triples):
-    lines = ["space " + " ".join(sp_tokens(sp)), "claims", "extent"]
+    if sp[0] == "hist":
+        lines = ["space " + " ".join(sp_tokens(sp[1]))] + [op_line(op) for op in sp[2]] + ["claims", "extent"]
+    else:
+        lines = ["space " + " ".join(sp_tokens(sp)), "claims", "extent"]
     for tr in triples:
         lines += triple_lines(sp, tr)
     return lines
@@ -772,7 +964,7 @@ def cmp_line(a, b):
             return "same"
         if x == y:               # +0 / -0
             return "drift"
-        if abs(x - y) <= 1e-12 * max(abs(x), abs(y)):
+        if math.isfinite(x) and math.isfinite(y) and abs(x - y) <= 1e-12 * max(abs(x), abs(y)):
             return "drift"
     return "diff"
 
@@ -876,7 +1068,8 @@ def report_violation(ck, hbin, sp, tr, v, tag):
     model = None
     if not impl_only(sp):
         model = ck.run_bin(ck.driver(DRIVER), script)[0]
-    extra = {"space": " ".join(sp_tokens(sp)), "states": [st_tokens(sp, s) for s in tr], "what": text,
+    extra = {"space": " ".join(sp_tokens(sp)), "history": [op_line(op) for op in sp[2]] if sp[0] == "hist" else None,
+             "states": [st_tokens(sp, s) for s in tr], "what": text,
              "defect": defect, "generator": tag, "indices": list(idx)}
     if all(ck.known_finding(r) is not None for r in recs):
         for r in recs:
@@ -916,9 +1109,10 @@ def search_around(ck, hbin, sp, tr, r, n=120):
             t = (c, a, gen_state(r, sp, "bound"))
         triples.append(t)
     script, impl, model, rc, err = run_batch(ck, hbin, [(sp, triples)])
-    if not impl or impl[0] != "ok":
+    PRE = pre_lines(sp)
+    if not impl or any(x != "ok" for x in impl[:PRE]):
         return None
-    cl, ext, ts = parse_block(impl[1:])
+    cl, ext, ts = parse_block(impl[PRE:])
     if cl is None:
         return None
     for t, res in zip(triples, ts):
@@ -940,25 +1134,27 @@ def judge_batch(ck, hbin, blocks, tag, state, pre=None):
     ck.count("ops", len(script) - 1)
     pos = 0
     for sp, triples in blocks:
-        n = 3 + OPS_PER_TRIPLE * len(triples)
+        PRE = pre_lines(sp)
+        n = PRE + 2 + OPS_PER_TRIPLE * len(triples)
         iout = impl[pos:pos + n]
         mout = model[pos:pos + n] if model is not None else None
         sl = script[1 + pos:1 + pos + n]
         pos += n
         kind = "+".join(sorted(set(unit_kind(u[0]) for u in units(sp))))
         ck.count("space:" + sp[0])
-        if len(iout) < n or iout[0] != "ok":
+        if len(iout) < n or any(x != "ok" for x in iout[:PRE]):
             if state["bad"] < 4:
                 state["bad"] += 1
                 ck.report({"engine": "spacedist", "law": "crash", "culprit": kind,
                            "what": "harness stopped or refused a well-formed space (rc=%s): %s" % (rc, (err or "")[-600:])},
                           script=["spacedist"] + sl, observed=iout, expected=mout, engine="spacedist")
             continue
-        cl, ext, ts = parse_block(iout[1:])
+        cl, ext, ts = parse_block(iout[PRE:])
         if cl is None or ext is None:
             state["bad"] += 1
             ck.report({"engine": "spacedist", "law": "protocol", "culprit": kind, "what": "bad claims/extent line"},
-                      script=["spacedist"] + sl[:3], observed=iout[:3], expected=mout[:3] if mout else None, engine="spacedist")
+                      script=["spacedist"] + sl[:PRE + 2], observed=iout[:PRE + 2], expected=mout[:PRE + 2] if mout else None,
+                      engine="spacedist")
             continue
         # ---- spec oracle on the implementation's outputs
         for k, (tr, res) in enumerate(zip(triples, ts)):
@@ -966,7 +1162,7 @@ def judge_batch(ck, hbin, blocks, tag, state, pre=None):
             if res is None:
                 state["bad"] += 1
                 ck.report({"engine": "spacedist", "law": "protocol", "culprit": kind, "what": "bad-op on a well-formed line"},
-                          script=minimal_script(sp, tr), observed=iout[3 + k * OPS_PER_TRIPLE:3 + (k + 1) * OPS_PER_TRIPLE],
+                          script=minimal_script(sp, tr), observed=iout[PRE + 2 + k * OPS_PER_TRIPLE:PRE + 2 + (k + 1) * OPS_PER_TRIPLE],
                           engine="spacedist")
                 continue
             inb, D, E = res
@@ -988,6 +1184,10 @@ def judge_batch(ck, hbin, blocks, tag, state, pre=None):
                 if state["bad"] < 6:
                     if report_violation(ck, hbin, sp, tr, v, mode):
                         state["bad"] += 1
+        if tag in ("history", "corpus") or (tag == "compound" and state.get("wsum_budget", 0) > 0):
+            if tag == "compound":
+                state["wsum_budget"] -= 1
+            weighted_sum_check(ck, hbin, sp, triples, ts, state)
         if len(state["samples"]) < 6:
             state["samples"].append(1)
             ck.sample({"generator": tag, "space": " ".join(sp_tokens(sp))[:200], "claims": cl, "extent": ext,
@@ -1011,7 +1211,7 @@ def judge_batch(ck, hbin, blocks, tag, state, pre=None):
             if state["dis"] >= 3:
                 break
             state["dis"] += 1
-            k = (li - 3) // OPS_PER_TRIPLE if li >= 3 else 0
+            k = (li - PRE - 2) // OPS_PER_TRIPLE if li >= PRE + 2 else 0
             tr = triples[k] if triples else None
             found = None
             if tr is not None:
@@ -1031,6 +1231,52 @@ def judge_batch(ck, hbin, blocks, tag, state, pre=None):
                 ck.log("correspondence disagreement in %s at op %r: impl %r model %r; targeted search found no law violation"
                        % (kind, sl[li].split()[0], x, y))
             break
+
+
+def weighted_sum_check(ck, hbin, sp, triples, ts, state):
+    """independent of the model: the distance the implementation reports for a compound (any nesting of compounds,
+    SE(2)/SE(3), wrappers, constrained spaces, CForest wrappers) must be the sum over its unit sub-spaces of
+    (product of the CURRENT weights on the way down) x (the unit space's own distance), all asked from the real code."""
+    if impl_only(sp) or contains(sp, lambda x: x[0] == "spacetime"):
+        return
+    us = units(sp)
+    if len(us) < 2 and all(abs(w - 1.0) < 1e-300 for _u, w, _n in us):
+        return
+    sums = [dict((pq, 0.0) for pq in PAIRS) for _ in triples]
+    i = 0
+    for usp, w, n in us:
+        subs = [tuple(s[i:i + n] for s in tr) for tr in triples]
+        i += n
+        o, rc, err = ck.run_bin(hbin, ["spacedist"] + space_lines(usp, subs))
+        if not o or o[0] != "ok":
+            return
+        _cl, _ext, uts = parse_block(o[1:])
+        for k, res in enumerate(uts):
+            if res is None:
+                return
+            for pq in PAIRS:
+                sums[k][pq] += w * res[1][pq]
+    for k, (tr, res) in enumerate(zip(triples, ts)):
+        if res is None:
+            continue
+        ck.count("oracle:weighted-sum-triples")
+        for pq in PAIRS:
+            d, e = res[1][pq], sums[k][pq]
+            if not (abs(d - e) <= 1e-9 * max(1.0, abs(d), abs(e))):
+                ck.count("oracle-violation:weightedsum")
+                if state["bad"] < 6:
+                    state["bad"] += 1
+                    script = minimal_script(sp, tr)
+                    impl = ck.run_bin(hbin, script)[0]
+                    model = ck.run_bin(ck.driver(DRIVER), script)[0]
+                    ck.report({"engine": "spacedist", "law": "weightedsum", "culprit": "compound",
+                               "space": " ".join(sp_tokens(sp)), "history": [op_line(op) for op in sp[2]] if sp[0] == "hist" else None,
+                               "states": [st_tokens(sp, x) for x in tr], "indices": list(pq),
+                               "what": "compound distance %r is not the weighted sum of its components' distances %r (current weights)" % (d, e)},
+                              script=script, expected=model, observed=impl, engine="spacedist")
+                    ck.log("property failure: law=weightedsum distance %r, weighted sum of the component distances %r in space %s"
+                           % (d, e, " ".join(script[1:pre_lines(sp) + 1])[:200]))
+                return
 
 
 def make_triples(r, sp, n, state):
@@ -1096,7 +1342,7 @@ def run(ck):
         except RuntimeError:
             return 0
     quick = ck.tier == "quick"
-    state = {"bad": 0, "dis": 0, "modes": {}, "samples": []}
+    state = {"bad": 0, "dis": 0, "modes": {}, "samples": [], "wsum_budget": 12 if quick else 80}
     jobs = []
     # corpus first
     for name, sp, tr in corpus():
@@ -1117,6 +1363,10 @@ def run(ck):
             batch = []
     if batch:
         jobs.append((batch, "compound"))
+    hs = history_spaces(ck.rng.fork("hist"), 30 if quick else 250)
+    for i in range(0, len(hs), 4):
+        jobs.append(([(sp, make_triples(ck.rng.fork("h%d" % (i + j)), sp, 14 if quick else 40, state))
+                      for j, sp in enumerate(hs[i:i + 4])], "history"))
     for i, sp in enumerate(car_spaces(ck.rng.fork("cars"))):
         jobs.append(([(sp, make_triples(ck.rng.fork("car%d" % i), sp, nt_car, state))], "dubins-reedsshepp"))
 
@@ -1158,9 +1408,10 @@ def replay(ck, data):
         if model is not None and i < len(model) and model[i] != x:
             print("%-60s model: %s" % ("", model[i]))
     bad = False
-    if "space" in rec and "states" in rec and impl and impl[0] == "ok":
+    PRE = script.index("claims") - 1 if "claims" in script else 1
+    if "space" in rec and "states" in rec and impl and all(x == "ok" for x in impl[:PRE]):
         tr = tuple(st_parse(sp, s) for s in rec["states"])
-        cl, ext, ts = parse_block(impl[1:])
+        cl, ext, ts = parse_block(impl[PRE:])
         if cl and ts and ts[0]:
             for v in laws(sp, cl, ext, tr, ts[0]):
                 print("PROPERTY FAILS: law=%s %s (defect %r)" % (v[0], v[3], v[2]))
